@@ -835,3 +835,69 @@ def replay_canonical(viol):
              ("X is 1 rdiv 3, writeq(X), nl", "1 rdiv 3"),
              ("X is 1 rdiv 3, write_term(X, [ignore_ops(true)]), nl", "rdiv(1,3)")]
     return run_cases("", cases, {"model": viol}, "C55", "canonical", batch=True)
+
+
+# ---------------------------------------------------------------- C10 (unification steps)
+UNI_PROGRAM = """
+:- use_module(library(lists)).
+:- use_module(library(atts)).
+:- use_module(library(dif)).
+:- use_module(library(freeze)).
+show(X) :- write(X), nl.
+u(A, B, R) :- ( A = B -> R = yes(A) ; R = no ).
+showv(R) :- copy_term(R, C), term_variables(C, Vs), nv(Vs, 0), write_term(C, [numbervars(true), quoted(true)]), nl.
+nv([], _).
+nv(['$VAR'(N)|Vs], N) :- N1 is N + 1, nv(Vs, N1).
+explode([], []).
+explode([C|Cs], [C|Ds]) :- explode(Cs, Ds).
+"""
+
+
+def replay_unification(viol):
+    """pairs of terms of every kind of cell, both orders: outcome (unified term or no) against the
+    outcome written down from the definition of syntactic unification"""
+    pairs = [
+        ("a", "a", "yes(a)"), ("a", "b", "no"), ("a", "f(a)", "no"), ("f(X)", "f(a)", "yes(f(a))"),
+        ("f(X,b)", "f(a,Y)", "yes(f(a,b))"), ("f(a,b)", "f(a)", "no"), ("f(a,b)", "g(a,b)", "no"),
+        ("f(a,b,c)", "f(a,b,d)", "no"), ("f(X,Y,Z)", "f(1,2,3)", "yes(f(1,2,3))"),
+        ("f(X,X)", "f(a,b)", "no"), ("f(X,X)", "f(Y,c)", "yes(f(c,c))"),
+        ("[a,b]", "[a,b]", "yes([a,b])"), ("[a,b]", "[a,c]", "no"), ("[a|T]", "[a,b,c]", "yes([a,b,c])"),
+        ("[H|T]", "[]", "no"), ("[]", "[]", "yes([])"), ("[]", "nil", "no"),
+        ("\"ab\"", "[a,b]", "yes(\"ab\")"), ("\"ab\"", "[a,c]", "no"), ("\"abc\"", "[a|T]", "yes(\"abc\")"),
+        ("\"ab\"", "\"ab\"", "yes(\"ab\")"), ("\"ab\"", "\"abc\"", "no"), ("\"ab\"", "f(a,b)", "no"),
+        ("[a|\"b\"]", "\"ab\"", "yes(\"ab\")"), ("\"ab\"", "ab", "no"),
+        ("1", "1", "yes(1)"), ("1", "2", "no"), ("1", "1.0", "no"), ("1.5", "1.5", "yes(1.5)"),
+        ("1.5", "2.5", "no"), ("a", "1", "no"), ("f(1.5)", "f(1.5)", "yes(f(1.5))"),
+        ("X", "f(Y)", "yes(f(A))"), ("f(A,B,A)", "f(B,C,d)", "yes(f(d,d,d))"),
+        ("g(f(X),[X|T])", "g(f(1),[Y,2])", "yes(g(f(1),[1,2]))"),
+        ("'\\x1\\'", "a", "no"), ("f", "f()", None),
+    ]
+    cases = []
+    for a, b, want in pairs:
+        if want is None:
+            continue
+        w = want.replace("\"ab\"", "[a,b]").replace("\"abc\"", "[a,b,c]")
+        cases.append(("u(%s, %s, R), showv(R)" % (a, b), w.replace("yes(f(A))", "yes(f(A))")))
+        cases.append(("u(%s, %s, R), showv(R)" % (b, a), None))
+    # outcome must not depend on the order of the two terms (second member of each pair)
+    fixed = []
+    for k in range(0, len(cases), 2):
+        fixed.append(cases[k])
+        g = cases[k + 1][0]
+        want = cases[k][1]
+        fixed.append((g, ("yes(%s)" % g[g.index("u(") + 2:].split(", ")[0]) if False else want))
+    cases = fixed
+    # strings built at run time against explicit list cells, attributed variables, stack variables
+    cases += [
+        ("explode(\"ab\", L), u(L, \"ab\", R), showv(R)", "yes([a,b])"),
+        ("explode(\"ab\", L), u(\"ab\", L, R), showv(R)", "yes([a,b])"),
+        ("explode(\"ab\", L), u(L, \"ac\", R), showv(R)", "no"),
+        ("dif(X, a), ( X = a -> show(unified) ; show(no) )", "no"),
+        ("dif(X, a), ( X = b -> show(yes(X)) ; show(no) )", "yes(b)"),
+        ("dif(X, a), ( f(X) = f(Y), Y = a -> show(unified) ; show(no) )", "no"),
+        ("freeze(X, show(woke)), X = 1", "woke"),
+        ("freeze(X, true), Y = X, ( Y == X -> show(same) ; show(different) )", "same"),
+        ("put_atts_probe", None),
+    ]
+    cases = [c for c in cases if c[1] is not None]
+    return run_cases(UNI_PROGRAM, cases, {"model": viol}, "C10", "unification", batch=True)
